@@ -127,6 +127,22 @@ Theorem C20_udp_build_then_parse :
 Proof. exact udp_build_then_parse. Qed.
 Print Assumptions C20_udp_build_then_parse.
 
+(* results are values.  Trivial in Gallina, and exactly for that reason recorded: for the Go code it is the
+   no-aliasing assumption behind (3) — a built datagram / a parsed host keeps its bytes until its consumer is done
+   with it, whatever the relay encodes or parses in the meantime.  The harness checks the assumption on the real
+   relay (retained results compared after every later operation, and after a barrier under concurrent builds). *)
+Theorem C20_udp_results_are_values :
+  forall (parse_ip : list byte -> option (list byte)) (a b : list uop),
+  firstn (length a) (run_uops parse_ip (a ++ b)) = run_uops parse_ip a.
+Proof. exact run_uops_later_ops_irrelevant. Qed.
+Print Assumptions C20_udp_results_are_values.
+
+Theorem C20_udp_history_is_pointwise :
+  forall (parse_ip : list byte -> option (list byte)) (l : list uop) i o,
+  nth_error l i = Some o -> nth_error (run_uops parse_ip l) i = Some (run_uop parse_ip o).
+Proof. exact run_uops_nth. Qed.
+Print Assumptions C20_udp_history_is_pointwise.
+
 (* the two defects of the pinned tree (repaired by fixes/C20-*.diff), kept as refuted statements about the
    faithful pinned variants *)
 Theorem C20_pinned_udp_short_refuted :
